@@ -29,15 +29,20 @@ type S struct {
 	secret int
 }
 
-func (s S) Hello() string        { return "hello " + s.Name }
+func (s S) Hello() string { return "hello " + s.Name }
 func (s *S) PtrHello() string {
 	if s == nil {
 		return "nil receiver"
 	}
 	return "ptr " + s.Name
 }
-func (s S) Add(n int) int        { return s.N + n }
+func (s S) Add(n int) int         { return s.N + n }
 func (s S) Fail() (string, error) { return "", errFail }
+
+type boxed struct {
+	Name string
+	Tag  interface{}
+}
 
 type failErr struct{}
 
@@ -55,7 +60,7 @@ func (i *iter) Next() interface{} {
 	return i.n
 }
 
-const nKinds = 27
+const nKinds = 29
 
 // val: a value of kind k (payloads arbitrary where a payload can matter).
 func val(k int) interface{} {
@@ -94,7 +99,7 @@ func val(k int) interface{} {
 	case 15:
 		return map[int]string{1: "a"}
 	case 16:
-		return map[interface{}]interface{}{"a": 1, 2: "b"}
+		return map[interface{}]interface{}{"a": 1, 2: "b", boxed{Name: "k"}: 3}
 	case 17:
 		return S{Name: "s", Kids: []S{{Name: "k"}}}
 	case 18:
@@ -113,8 +118,12 @@ func val(k int) interface{} {
 		return []int(nil)
 	case 25:
 		return map[string]interface{}(nil)
-	default:
+	case 26:
 		return []S{{Name: "e"}}
+	case 27: // comparable static type, unhashable content
+		return [1]interface{}{[]int{1}}
+	default:
+		return boxed{Name: "b", Tag: []string{"t"}}
 	}
 }
 
